@@ -77,6 +77,7 @@ mod s2 {
             "NEST" struct Outer { char name[8]; struct Point; long l[2]; enum Color; };
             "SEQ" (uint vals)*;
             "SEQS" (struct Pair { uchar a; char b; })*;
+            "DEEP" struct Lvl1 { struct Lvl2 { struct Lvl3 { int; int; }; uint; }; uchar; };
         };
     }
 }
@@ -203,6 +204,7 @@ pub fn specs() -> Vec<SpecCase> {
                 tg("NEST", Some(T::Struct(vec![T::CharArr(8), point(), T::Arr(Box::new(sc("long")), 2), color()])), false, false, false),
                 tg("SEQ", Some(sc("uint")), false, false, true),
                 tg("SEQS", Some(T::Struct(vec![sc("uchar"), sc("char")])), false, false, true),
+                tg("DEEP", Some(T::Struct(vec![T::Struct(vec![T::Struct(vec![sc("int"), sc("int")]), sc("uint")]), sc("uchar")])), false, false, false),
             ])
         ),
         spec_case!(
